@@ -3,7 +3,7 @@ import NfcVerif.Lemmas.TlvSync
 # C01 - NDEF write then read round-trips (Type 1 and Type 2 Tag)
 
 Statements about the executable model `NfcVerif.Model.Tlv` (transcription of `tt1.py`,
-`tt2.py` and the `octets` setter of `tag/__init__.py`; F1 modelled as repaired).  Proofs are
+`tt2.py` and the `octets` setter of `tag/__init__.py`; F1, F2 modelled as repaired).  Proofs are
 in `Lemmas/Tlv.lean` and `Lemmas/TlvSync.lean`.
 
 `WF c m L` is the explicit, decidable well-formedness predicate of `Model/Tlv.lean`;
@@ -22,9 +22,9 @@ and exactly `data`. -/
 theorem t12_roundtrip (c : Cfg) (m : Bytes) (L : Layout) (data : Bytes)
     (hread : readNdef c m = .ok (some L)) (hwf : WF c m L) (hcap : (data.length : Int) ≤ L.cap) :
     ∃ ph, writeNdef c m L data = .ok ph ∧ readNdef c ph.m3 = .ok (some { L with ndef := data }) := by
-  obtain ⟨m1, m2, m3, w, hnew⟩ := roundtrip c m L data ((readNdef_some c m L).1 hread) hwf hcap
-  refine ⟨⟨m1, m2, m3⟩, ?_, (readNdef_some c m3 _).2 hnew⟩
-  unfold writeNdef; rw [w.p1, Py.bind_ok, w.p2, Py.bind_ok, w.p3, Py.bind_ok]
+  obtain ⟨m1, m2, m3a, m3, w, hnew⟩ := roundtrip c m L data ((readNdef_some c m L).1 hread) hwf hcap
+  refine ⟨⟨m1, m2, m3a, m3⟩, ?_, (readNdef_some c m3 _).2 hnew⟩
+  unfold writeNdef; rw [w.p1, Py.bind_ok, w.p2, Py.bind_ok, w.p3a, Py.bind_ok, w.p3, Py.bind_ok]
 
 /-- Type 2 Tag instance (4-byte pages, capability container at 12, TLV area from 16). -/
 theorem t2_roundtrip (m : Bytes) (L : Layout) (data : Bytes)
@@ -66,17 +66,18 @@ theorem t12_write_reaches_tag (c : Cfg) (m : Bytes) (L : Layout) (data : Bytes)
     (hw : L.writeable = true) :
     (setOctets c m L data).res = .ok ()
     ∧ readNdef c (apply m (setOctets c m L data).cmds) = .ok (some { L with ndef := data }) := by
-  obtain ⟨m1, m2, m3, w, hnew⟩ := roundtrip c m L data ((readNdef_some c m L).1 hread) hwf hcap
+  obtain ⟨m1, m2, m3a, m3, w, hnew⟩ := roundtrip c m L data ((readNdef_some c m L).1 hread) hwf hcap
   have hu : 0 < c.unit := hwf.2.1
   have hl1 := w.len1
   have hl2 := w.len2
   have hl3 := w.len3
+  have hl3a : m3a.length = m.length := by rw [w.m3a_eq, pre3_length, hl2]
   unfold setOctets
   rw [if_neg (by simp [hw]), if_neg (by omega), writeCmds_eq w]
   refine ⟨rfl, ?_⟩
   simp only
-  rw [apply_append, apply_append, apply_diff _ hu _ _ hl1.symm, apply_diff _ hu _ _ (by omega),
-    apply_diff _ hu _ _ (by omega)]
+  rw [apply_append, apply_append, apply_append, apply_diff _ hu _ _ hl1.symm, apply_diff _ hu _ _ (by omega),
+    apply_diff _ hu _ _ (by omega), apply_diff _ hu _ _ (by omega)]
   exact (readNdef_some c m3 _).2 hnew
 
 /-- **Oversize data is rejected before any command is sent** (and a write-protected tag before
